@@ -40,11 +40,13 @@ Print Assumptions C29_failed_window_reprocessed.
 
 (* Record-and-advance is atomic for EVERY crash prefix k of the protocol
    [hand rows to the buffer; INSERT execution; UPDATE pointer; COMMIT]: before the commit
-   neither the execution record nor the new pointer is visible, after it both are. *)
+   neither the execution record nor the pointer update is visible, after it both are (the
+   pointer update being the guarded one: it advances only when the window covers the pointer). *)
 Theorem C29_atomic_advance : forall k sched s sns ens,
   let s' := run_prefix k sched s sns ens in
   ((k < 4)%nat -> lp s' = lp s /\ execs s' = execs s /\ active s' = active s) /\
-  ((4 <= k)%nat -> lp s' = Some (ens / ns) /\ execs s' = the_exec sched sns ens :: execs s /\ active s' = active s).
+  ((4 <= k)%nat -> lp s' = (if advances (lp s) (sns / ns) (ens / ns) then Some (ens / ns) else lp s) /\
+                   execs s' = the_exec sched sns ens :: execs s /\ active s' = active s).
 Proof. exact atomic_advance. Qed.
 Print Assumptions C29_atomic_advance.
 
@@ -59,13 +61,13 @@ Theorem C29_crashed_window_reprocessed : forall lbs lbm s l now1 now2 c,
 Proof. exact sched_crashed_then_ok. Qed.
 Print Assumptions C29_crashed_window_reprocessed.
 
-(* ALL histories, manual runs with explicit bounds included: the pointer is the end of the most
-   recent completed execution; every completed scheduled execution starts where the previous
-   completed execution (scheduled or manual) ended; every stored row is labelled with the
-   start of the window it summarises (label in microseconds, window literal in seconds). *)
+(* ALL histories, manual runs with explicit bounds included: the pointer is exactly what the log
+   of completed executions implies under the guarded update; every completed scheduled execution
+   starts at the pointer, i.e. where the previous pointer-advancing execution ended; every stored
+   row is labelled with the start of the window it summarises. *)
 Theorem C29_history : forall lbs lbm ops,
   let s := run lbs lbm init ops in
-  lp s = last_end (execs s) /\ starts_at_prev (execs s) = true /\ forallb label_ok (dest s) = true.
+  lp s = ptr_of (execs s) /\ starts_at_ptr (execs s) = true /\ forallb label_ok (dest s) = true.
 Proof. intros lbs lbm ops. apply inv_all_run. apply inv_all_init. Qed.
 Print Assumptions C29_history.
 
@@ -82,9 +84,43 @@ Theorem C29_label : forall lbs lbm s l now,
 Proof. exact sched_label_exact. Qed.
 Print Assumptions C29_label.
 
-(* REFUTED at full strength.  (1) A manual back-fill [x, y) with y earlier than the current
-   pointer moves the pointer BACKWARDS: the next scheduled window [y, now) overlaps windows
-   that were already processed.  Clock strictly increasing. *)
+(* FULL STRENGTH, for ALL histories - scheduled and manual runs with any explicit bounds,
+   failures, crashes, restarts, updates, under ANY clock, from any state:
+   (1) the pointer never moves backwards; *)
+Theorem C29_pointer_monotone : forall lbs lbm ops s p,
+  lp s = Some p -> exists p', lp (run lbs lbm s ops) = Some p' /\ p <= p'.
+Proof. exact run_monotone. Qed.
+Print Assumptions C29_pointer_monotone.
+
+(* (2) completed scheduled windows never overlap: each is well-formed and every later one starts
+   at or after the end of every earlier one; *)
+Theorem C29_sched_disjoint : forall lbs lbm ops,
+  sortedb (completed_sched (rev (execs (run lbs lbm init ops)))) = true.
+Proof. exact sched_disjoint_all. Qed.
+Print Assumptions C29_sched_disjoint.
+
+(* (3) and they leave no gap: every completed scheduled window starts inside the region that is
+   contiguously covered by the completed windows recorded before it (manual runs may bridge). *)
+Theorem C29_no_gap : forall lbs lbm ops, gap_free (execs (run lbs lbm init ops)) = true.
+Proof. exact no_gap_all. Qed.
+Print Assumptions C29_no_gap.
+
+(* A manual back-fill that ends at or before the pointer, or a manual run that starts after it, is
+   executed and recorded but does not move the pointer (the two defects repaired by 5249f50). *)
+Theorem C29_manual_outside_keeps_pointer : forall sched s sns ens l,
+  lp s = Some l -> (ens / ns <= l \/ l < sns / ns) -> lp (committed sched s sns ens) = Some l.
+Proof. exact manual_outside_keeps_pointer. Qed.
+Print Assumptions C29_manual_outside_keeps_pointer.
+
+(* Stronger, for the histories whose effective manual runs name no explicit START: ALL completed
+   windows, manual and scheduled, tile exactly. *)
+Theorem C29_tiles_no_explicit_start : forall lbs lbm ops s,
+  inv_chain s -> no_explicit_start ops = true ->
+  chainb (completed (rev (execs (run lbs lbm s ops)))) = true.
+Proof. exact tiles_guarded. Qed.
+Print Assumptions C29_tiles_no_explicit_start.
+
+(* ---- regression: the two histories that refuted the property before 5249f50 ----------- *)
 Definition T0 : Z := 1700000000.
 Definition hour : Z := 3600 * ns.
 Definition overlap_witness : list op :=
@@ -92,49 +128,24 @@ Definition overlap_witness : list op :=
     Sched ((T0 + 180) * ns) false None;
     Manual ((T0 + 200) * ns) (Some ((T0 - 4400) * ns)) (Some ((T0 - 2600) * ns)) false false false None;
     Sched ((T0 + 240) * ns) false None ].
-
-Theorem C29_manual_overlap_refuted :
-  exists ops, nondecrb (clocks ops) = true /\
-    let s := run hour hour init ops in
-    sortedb (completed_sched (rev (execs s))) = false /\
-    completed_sched (rev (execs s)) =
-      [ (T0 - 3600, T0); (T0, T0 + 180); (T0 - 2600, T0 + 240) ].
-Proof. exists overlap_witness. vm_compute. repeat split. Qed.
-Print Assumptions C29_manual_overlap_refuted.
-
-(* (2) A manual run with an explicit start later than the pointer (no explicit end) advances
-   the pointer over [pointer, start): that range is never processed. *)
 Definition gap_witness : list op :=
   [ Sched (T0 * ns) false None;
     Manual ((T0 + 100) * ns) (Some ((T0 + 60) * ns)) None false false false None;
     Sched ((T0 + 200) * ns) false None ].
 
-Theorem C29_manual_gap_refuted :
-  exists ops, nondecrb (clocks ops) = true /\ no_explicit_both ops = true /\
-    let s := run hour hour init ops in
-    no_gapb (rev (execs s)) = false /\ chainb (completed (rev (execs s))) = false /\
-    completed (rev (execs s)) = [ (T0 - 3600, T0); (T0 + 60, T0 + 100); (T0 + 100, T0 + 200) ].
-Proof. exists gap_witness. vm_compute. repeat split. Qed.
-Print Assumptions C29_manual_gap_refuted.
+(* the back-fill is recorded, the pointer stays, the next scheduled window is [T0+180, T0+240) *)
+Example C29_backfill_regression :
+  let s := run hour hour init overlap_witness in
+  completed (rev (execs s)) = [ (T0 - 3600, T0); (T0, T0 + 180); (T0 - 4400, T0 - 2600); (T0 + 180, T0 + 240) ] /\
+  completed_sched (rev (execs s)) = [ (T0 - 3600, T0); (T0, T0 + 180); (T0 + 180, T0 + 240) ] /\
+  lp s = Some (T0 + 240).
+Proof. vm_compute. repeat split. Qed.
 
-(* GUARDED (1): in every history whose effective (non-dry, well-formed) manual runs name no
-   explicit START - explicit ends, failures, crashes, restarts, updates and any clock allowed -
-   ALL completed windows, manual and scheduled, tile: no gap and no overlap.  Stated from any
-   state whose pointer and log are consistent. *)
-Theorem C29_tiles_guarded : forall lbs lbm ops s,
-  inv_chain s -> no_explicit_start ops = true ->
-  chainb (completed (rev (execs (run lbs lbm s ops)))) = true.
-Proof. exact tiles_guarded. Qed.
-Print Assumptions C29_tiles_guarded.
-
-(* GUARDED (2): under a non-decreasing clock, scheduled windows can only overlap when some
-   effective manual run names BOTH bounds: otherwise the completed scheduled windows are
-   pairwise disjoint and in order. *)
-Theorem C29_sched_disjoint_guarded : forall lbs lbm ops,
-  no_explicit_both ops = true -> nondecrb (clocks ops) = true ->
-  sortedb (completed_sched (rev (execs (run lbs lbm init ops)))) = true.
-Proof. exact sched_disjoint_guarded. Qed.
-Print Assumptions C29_sched_disjoint_guarded.
+(* the manual run ahead of the pointer is recorded, the next scheduled window still starts at T0 *)
+Example C29_ahead_regression :
+  let s := run hour hour init gap_witness in
+  completed (rev (execs s)) = [ (T0 - 3600, T0); (T0 + 60, T0 + 100); (T0, T0 + 200) ] /\ lp s = Some (T0 + 200).
+Proof. vm_compute. repeat split. Qed.
 
 (* ---- non-vacuity --------------------------------------------------------------------- *)
 
@@ -157,16 +168,17 @@ Example C29_guards_nonvacuous :
   let ops := [ Sched (T0 * ns) false None;
                Manual ((T0 + 50) * ns) None (Some ((T0 + 20) * ns)) false false false None;
                Sched ((T0 + 100) * ns) false None ] in
-  no_explicit_start ops = true /\ no_explicit_both ops = true /\ nondecrb (clocks ops) = true /\
-  inv_chain init /\
+  no_explicit_start ops = true /\ inv_chain init /\
   completed (rev (execs (run hour hour init ops))) = [ (T0 - 3600, T0); (T0, T0 + 20); (T0 + 20, T0 + 100) ].
 Proof. vm_compute. repeat split. Qed.
 
-(* the excluded classes are exactly where the witnesses live *)
-Example C29_overlap_witness_excluded : no_explicit_both overlap_witness = false.
-Proof. reflexivity. Qed.
-Example C29_gap_witness_excluded : no_explicit_start gap_witness = false.
-Proof. reflexivity. Qed.
+(* a manual window that covers the pointer advances it: [T0-100, T0+50) with pointer T0 *)
+Example C29_manual_covering_advances :
+  let ops := [ Sched (T0 * ns) false None;
+               Manual ((T0 + 60) * ns) (Some ((T0 - 100) * ns)) (Some ((T0 + 50) * ns)) false false false None;
+               Sched ((T0 + 100) * ns) false None ] in
+  completed_sched (rev (execs (run hour hour init ops))) = [ (T0 - 3600, T0); (T0 + 50, T0 + 100) ].
+Proof. vm_compute. reflexivity. Qed.
 
 (* hypotheses of the re-processing theorems are satisfiable *)
 Example C29_reprocess_nonvacuous :
